@@ -192,6 +192,11 @@ STMTS = {
     "uint64-parenthesised-type": "var pw uint32 = 7\nacc += (uint64)(pw)",
     "pointer-slice-literal-elided-address": "pl := []*S0{{a: 3}}\nacc += pl[0].a",
     "tuple-assign-index-uses-assigned": "tm := make(map[uint64]uint64)\nvar tk uint64\ntk, tm[tk] = two()\nacc += tm[0] + tk",
+    "tuple-assign-index-reads-stored-element": "te := make(map[uint64]uint64)\nte[0], te[te[0]] = two()\nacc += te[0] + te[10]*3",
+    "tuple-assign-index-reads-through-pointer": "tx := new(uint64)\ntn := make(map[uint64]uint64)\n*tx, tn[*tx] = two()\nacc += tn[0] + tn[10]*3 + *tx",
+    "tuple-assign-field-then-index-by-field": "tf := &S0{a: 0}\ntg := make(map[uint64]uint64)\ntf.a, tg[tf.a] = two()\nacc += tg[0] + tg[10]*3 + tf.a",
+    "tuple-assign-first-target-indexed": "th := make(map[uint64]uint64)\nvar ti uint64 = 2\nth[ti], ti = two()\nacc += th[2] + ti",
+    "tuple-assign-fields-of-one-struct": "tj := &S0{a: 1}\nvar tb uint64\ntj.a, tb = two()\nacc += tj.a + tb",
     "tuple-assign-pointer-then-store": "tp := new(uint64)\ntq := new(uint64)\nvar tr *uint64 = tp\ntr, *tr = tq, 5\nacc += *tp + *tq + *tr",
     "function-field-as-value": "h0 := &H0{cb: id, n: 4}\nhf := h0.cb\nacc += hf(h0.n) + add2(h0.cb(1), 2)",
     "bool-to-var-opassign": "var bo uint64 = 6\nbo |= 9\nbo &= 12\nbo ^= 5\nacc += bo",
